@@ -159,6 +159,8 @@ PROPERTIES["C17"] = {
         K("c17_backoff_single", "c17_backoff", ["rzmq::socket::core::state::ReconnectState::on_connection_failure"],
           "attempt counter: any u32; RECONNECT_IVL: any 1..=i32::MAX ms; RECONNECT_IVL_MAX: any 0..=i32::MAX ms (the full range the option parsers produce); one call", [NOW]),
         K("c17_is_due", "c17_backoff", ["ReconnectState::is_due", "ReconnectState::on_connection_failure"], "attempts < 4, any interval, arbitrary clock values", [NOW]),
+        K("c17_success_resets", "c17_backoff", ["ReconnectState::on_connection_failure", "ReconnectState::on_connection_success"],
+          "same ranges; failure (retry deadline stored), success, failure: counter and deadline cleared by the success, the next delay is the first delay again", [NOW]),
         K("c17_backoff_step", "c17_backoff", ["ReconnectState::on_connection_failure", "ReconnectState::on_connection_success"],
           "same ranges; two consecutive failures: monotone, at most doubling, capped; success resets", [NOW], tiers=("thorough",)),
     ],
@@ -166,7 +168,7 @@ PROPERTIES["C17"] = {
     "manifest": {
         "engine": "kani",
         "technique": "bounded model checking (Kani/CBMC) of ReconnectState over the full option range",
-        "text": "Back-off arithmetic for ALL (RECONNECT_IVL, RECONNECT_IVL_MAX, attempt) triples: first delay = IVL (capped), delay never below IVL unless capped, never above IVL_MAX when set, attempt counter saturates; thorough tier adds monotone / at-most-geometric growth across two consecutive failures and reset on success.",
+        "text": "Back-off arithmetic for ALL (RECONNECT_IVL, RECONNECT_IVL_MAX, attempt) triples: first delay = IVL (capped), delay never below IVL unless capped, never above IVL_MAX when set, attempt counter saturates; a success - also one that arrives while a retry deadline is still stored - clears counter and deadline so that the next outage starts at IVL again; thorough tier adds monotone / at-most-geometric growth across two consecutive failures.",
         "design_ref": "DESIGN.md §5 C17",
         "note": "NOT claimed: failure isolation between connections, reconnection actually happening, traffic resumption (socket-core event loop, tokio).",
     },
@@ -322,17 +324,22 @@ PROPERTIES["C01"] = {
            "thorough": "1..4 messages in the carry-over, 0..4 in the pipe"},
           params={"quick": {"max_carry": 3, "max_pipe": 3}, "thorough": {"max_carry": 4, "max_pipe": 4}}, budget={"quick": 600, "thorough": 3000},
           required_covers=["c01.batch.assembled", "c01.batch.topped-up-from-pipe", "c01.batch.left-carry-over"]),
+        M("c01_dealer_pending_queue_drained", "d_c01", "dealer_pending_drain",
+          {"quick": "DealerSocketOutgoingProcessor::run (the DEALER's background task: a loop around two nested tokio::select!, executed from its coroutine MIR together with the macro's poll_fn closures; the unbiased inner select's start branch is explored for every value): 1..4 messages queued with notify_one() each while no peer was attached, then a peer with room attaches (before or after the task's first poll); the task is polled until it parks with no notification pending",
+           "thorough": "1..6 messages"},
+          params={"quick": {"max_queued": 4}, "thorough": {"max_queued": 6}}, budget={"quick": 300, "thorough": 900},
+          required_covers=["c01.dealer-drain.drained", "c01.dealer-drain.several-queued"]),
     ],
     "assumptions": MIRSYM_TRUST + ["VecDeque is modelled as a list",
                                    "region mode: the coroutine object of run_loop is assembled by the driver (variable places taken from the coroutine's debug-info lines in the MIR dump), execution starts at the loop's first basic block and stops at AdaptiveThrottle::begin_work_bulk; Msg::size returns the symbolic size, the pipe hands out its oldest messages, ZmtpEngine::config returns the symbolic options"],
     "manifest": {
         "engine": "mirsym",
         "technique": "region-mode symbolic execution of the session actor's batch-assembly loop inside its coroutine MIR (z3 decides every size comparison); symbolic execution of the session's EgressBuffer (MIR, z3) against a reference byte stream under every partial-write split",
-        "text": "The bytes handed to the socket writer are, chunk for chunk, exactly the pushed chunks in order (priority chunks ahead of queued data but never inside a chunk that is partly on the wire), for every split of the stream into partial writes; pending message/byte counters are exact. Batch assembly from the carry-over: for every carry-over / pipe content within the bound and every message size and batch option, the batch handed to the framer followed by what stays in the carry-over and in the pipe is exactly the send order - nothing lost, duplicated or overtaken - and the batch is never empty.",
+        "text": "The bytes handed to the socket writer are, chunk for chunk, exactly the pushed chunks in order (priority chunks ahead of queued data but never inside a chunk that is partly on the wire), for every split of the stream into partial writes; pending message/byte counters are exact. Batch assembly from the carry-over: for every carry-over / pipe content within the bound and every message size and batch option, the batch handed to the framer followed by what stays in the carry-over and in the pipe is exactly the send order - nothing lost, duplicated or overtaken - and the batch is never empty. DEALER: messages accepted while no peer was attached are all handed to the peer once it attaches (in order), the background task never parks with messages queued, a peer with room and no notification pending.",
         "design_ref": "DESIGN.md §5 C01",
-        "note": "Two kernels of the property (write queue, carry-over batch assembly). NOT claimed: the first-batch path of the operational loop (inside the select! arm), the io_uring handler's batching, DEALER pending queue, HWM back-pressure, transports, runtime flavours, end-to-end exactly-once delivery.",
+        "note": "Three kernels of the property (write queue, carry-over batch assembly, DEALER pending queue). NOT claimed: the first-batch path of the operational loop (inside the select! arm), the io_uring handler's batching, HWM back-pressure, transports, runtime flavours, end-to-end exactly-once delivery.",
     },
-    "outside": "first-batch path, io_uring batching, DEALER pending queue, HWM back-pressure, transports",
+    "outside": "first-batch path, io_uring batching, HWM back-pressure, transports",
 }
 PROPERTIES["C19"]["mirsym"].append(PROPERTIES["C01"]["mirsym"][0])
 
